@@ -28,6 +28,8 @@ Section SyntaxInd.
   Hypothesis HWhile : forall c b, P c -> P b -> P (EWhile c b).
   Hypothesis HDoWhile : forall b c, P b -> P c -> P (EDoWhile b c).
   Hypothesis HFor : forall i c s b, P i -> P c -> P s -> P b -> P (EFor i c s b).
+  Hypothesis HForInRange : forall x a b body, P a -> P b -> P body -> P (EForInRange x a b body).
+  Hypothesis HForInArr : forall x a body, P a -> P body -> P (EForInArr x a body).
   Hypothesis HLambda : forall fd, PF fd -> P (ELambda fd).
   Hypothesis HArrLit : forall es t, PL es -> P (EArrLit es t).
   Hypothesis HIndex : forall a i, P a -> P i -> P (EIndex a i).
@@ -70,6 +72,8 @@ Section SyntaxInd.
     | EWhile c b => HWhile c b (expr_mut c) (expr_mut b)
     | EDoWhile b c => HDoWhile b c (expr_mut b) (expr_mut c)
     | EFor i c s b => HFor i c s b (expr_mut i) (expr_mut c) (expr_mut s) (expr_mut b)
+    | EForInRange x a b body => HForInRange x a b body (expr_mut a) (expr_mut b) (expr_mut body)
+    | EForInArr x a body => HForInArr x a body (expr_mut a) (expr_mut body)
     | ELambda fd => HLambda fd (fdef_mut fd)
     | EArrLit es t => HArrLit es t (exprs es)
     | EIndex a i => HIndex a i (expr_mut a) (expr_mut i)
